@@ -649,4 +649,141 @@ def serveJSONWire (j : JSONReq) (id : Nat) (o : Outcome) : Sees :=
 def handlerResp (m : Msg) (rcode n : Nat) : Resp :=
   { setRcode m rcode with answers := List.range n }
 
+/-! ## DoH: the HTTP front end (`isDoH`, `httpRequestToMsg`, `httpHandler.remoteAddr`, `serveDoH`)
+
+What decides whether an HTTP request reaches the DNS path at all: its URL path, its
+method, the `dns` parameter or the body — and the client's address, which the DoH
+server (unlike every other transport, which passes the socket's `net.Addr` on) has to
+parse back from the text `http.Request.RemoteAddr`. -/
+
+inductive PathKind | other | doh | json
+deriving DecidableEq, Repr
+
+def pathDoH : String := "/dns-query"
+def pathJSON : String := "/resolve"
+
+/-- `path.Clean` of a rooted path, on its "/"-separated elements (`acc` reversed): empty and
+"." elements vanish, ".." removes the element before it (nothing at the root). -/
+def cleanSegs : List String → List String → List String
+  | [], acc => acc.reverse
+  | s :: r, acc =>
+    if s = "" ∨ s = "." then cleanSegs r acc
+    else if s = ".." then cleanSegs r acc.tail
+    else cleanSegs r (s :: acc)
+
+/-- `isDoH` on `strings.Split(path.Clean(p), "/")`: a leading empty element (rooted path)
+is skipped and the first element decides — it counts when it is a *suffix* of the
+well-known path (`strings.HasSuffix(PathDoH, parts[0])`), so `/query` and `/y` are DoH
+paths and `/solve` is a JSON path; whatever follows the first element is ignored. -/
+def pathKindOf (parts : List String) : PathKind :=
+  let parts := match parts with | "" :: r => r | ps => ps
+  match parts with
+  | [] => .other
+  | p :: _ =>
+    if p = "" then .other
+    else if p.toList.isSuffixOf pathDoH.toList then .doh
+    else if p.toList.isSuffixOf pathJSON.toList then .json
+    else .other
+
+/-- The kind of a raw rooted URL path given by its "/"-separated elements. -/
+def pathKind (rawParts : List String) : PathKind := pathKindOf ("" :: cleanSegs rawParts [])
+
+inductive Method | get | post | other
+deriving DecidableEq, Repr
+
+/-- What `httpRequestToMsg` makes of a request on a DoH path. -/
+inductive Front
+  | notFound                    -- HTTP 404 (or the NonDNSHandler)
+  | badRequest                  -- HTTP 400
+  | wire (b : List Nat)         -- these octets go to `serveDNS`
+  | json                        -- the JSON API builds the query from the parameters
+deriving DecidableEq, Repr
+
+/-- `dns`: the values of the `dns` query parameter, `none` = not base64url.  The JSON
+API does not look at the method; the wire format takes GET with exactly one decodable
+`dns` value or POST with the body (no check of the Content-Type). -/
+def dohFront (k : PathKind) (meth : Method) (dns : List (Option (List Nat))) (body : List Nat) : Front :=
+  match k with
+  | .other => .notFound
+  | .json => .json
+  | .doh =>
+    match meth with
+    | .get => (match dns with | [some b] => .wire b | _ => .badRequest)
+    | .post => .wire body
+    | .other => .badRequest
+
+/-- The client's address as `net/http` reports it: an IPv4 or IPv6 literal and a port,
+an IPv6 link-local one with its zone (`[fe80::1%eth0]:443`). -/
+structure RAddr where
+  v6 : Bool
+  zone : Option String
+deriving DecidableEq, Repr
+
+/-- Does `httpHandler.remoteAddr` return (instead of panicking)?  `zoneAware = true` is
+the repaired code, which cuts the zone off before `netutil.ParseIP`; the original
+handed `fe80::1%eth0` to `ParseIP`, which knows no zones. -/
+def remoteParses (zoneAware : Bool) (a : RAddr) : Bool := zoneAware || a.zone.isNone
+
+def stHTTP404 : Nat := 404
+
+/-- A panic in `ServeHTTP` is recovered (`handlePanicAndRecover`) and nothing has been
+written: `net/http` completes the exchange with an empty 200. -/
+def panicked : Sees := { status := stHTTP200, msgs := [] }
+
+structure DohReq where
+  parts : List String            -- "/"-separated elements of the raw rooted URL path
+  meth : Method
+  dns : List (Option (List Nat))
+  body : List Nat
+  raddr : RAddr
+deriving DecidableEq, Repr
+
+/-- One HTTP request on the wire-format path end to end (`ServeHTTP` → `serveDoH`).
+Requests on the JSON path are `serveJSON` / `serveJSONWire` after the same address step. -/
+def serveDoHReq (zoneAware : Bool) (r : DohReq) (unpack : List Nat → Option Msg) (o : Outcome) : Sees :=
+  match dohFront (pathKind r.parts) r.meth r.dns r.body with
+  | .notFound => { status := stHTTP404, msgs := [] }
+  | .badRequest => { status := stHTTP400, msgs := [] }
+  | .json => { status := stHTTP400, msgs := [] }
+  | .wire b =>
+    if remoteParses zoneAware r.raddr then
+      serveWire (if r.meth = .get then .dohGet else .dohPost) (unpack b) o true
+    else panicked
+
+/-- The JSON API from the HTTP request: path, parameters and the client's address
+(the method is not looked at). -/
+def serveJSONReq (zoneAware : Bool) (parts : List String) (a : RAddr) (j : JSONReq) (id : Nat) (o : Outcome) :
+    Nat × List JSONView :=
+  if pathKind parts ≠ .json then (stHTTP404, [])
+  else match jsonToMsg j id with
+    | none => (stHTTP400, [])
+    | some _ => if remoteParses zoneAware a then serveJSON j id o else (stHTTP200, [])
+
+/-! ## DNSCrypt end to end: the library's own filter
+
+`dnsCryptHandler.ServeDNS` is reached through `dnscrypt.Server.serveDNS`, which drops a
+decrypted message that is a response or does not carry exactly one question before the
+handler is called (UDP: nothing is sent; TCP: the connection is closed), exactly like
+one that does not decrypt or unpack. -/
+
+def dnscryptLibPasses (m : Msg) : Bool := !m.qr && m.questions.length == 1
+
+def Transport.isDNSCrypt : Transport → Bool
+  | .dnscryptUDP | .dnscryptTCP => true
+  | _ => false
+
+/-- What a DNSCrypt client observes for one decrypted message (`stClosed` on TCP when the
+library gives the connection up). -/
+def droppedDC (t : Transport) : Sees :=
+  { status := if t = .dnscryptTCP then stClosed else stNone, msgs := [] }
+
+def serveDNSCryptE2E (t : Transport) (um : Option Msg) (o : Outcome) : Sees :=
+  match um with
+  | none => droppedDC t
+  | some m =>
+    if dnscryptLibPasses m then
+      let s := serveMsg t m o true
+      { s with status := if t = .dnscryptTCP then stOpen else stNone }
+    else droppedDC t
+
 end Agd.Serve
